@@ -34,8 +34,30 @@ TrSnap    == IsEvent("snap") /\ Snapshot(Log[l].r) /\ ObsOK(Log[l].obs)
 TrDeliver == IsEvent("deliver") /\ Log[l].i \in 1..Len(msgs)
                 /\ Deliver(Log[l].i, Log[l].r, Log[l].relay) /\ DeltaOK(Log[l]) /\ ObsOK(Log[l].obs)
 
+(* {"e":"conc","r":..,"merged":[payload,..],"locals":[{"k":..,"kind":"a"|"d","lo":n,"hi":n},..],"obs":OBS}
+   local operations, merges and look-ups ran CONCURRENTLY on replica r (concurrent.go).  Every interleaving of them ends
+   in the join of the old state, the merged payloads and what the local operations wrote; a local operation's clock
+   reading lies in [lo, hi], so each final time lies between the joins taken with the lower and with the upper bounds. *)
+RECURSIVE JoinSeq(_)
+JoinSeq(s) == IF s = <<>> THEN Empty
+              ELSE Join([k \in Keys |-> [a |-> Head(s)[k].a, d |-> Head(s)[k].d]], JoinSeq(Tail(s)))
+Bound(ev, k, kind, fld) == MaxOf({ IF fld = "lo" THEN x.lo ELSE x.hi : x \in { y \in ToSet(ev.locals) : y.k = k /\ y.kind = kind } })
+ConcOK(ev, fin) ==
+    LET base == Join(st[ev.r], JoinSeq(ev.merged)) IN
+    \A k \in Keys :
+        /\ Max(base[k].a, Bound(ev, k, "a", "lo")) <= fin[k].a /\ fin[k].a <= Max(base[k].a, Bound(ev, k, "a", "hi"))
+        /\ Max(base[k].d, Bound(ev, k, "d", "lo")) <= fin[k].d /\ fin[k].d <= Max(base[k].d, Bound(ev, k, "d", "hi"))
+TrConc == IsEvent("conc") /\
+    LET ev  == Log[l]
+        fin == [k \in Keys |-> [a |-> ev.obs.v[ev.r][k].a, d |-> ev.obs.v[ev.r][k].d]]
+    IN  /\ ConcOK(ev, fin)
+        /\ st'   = [st EXCEPT ![ev.r] = fin]
+        /\ seen' = [seen EXCEPT ![ev.r] = @ \cup Updates(JoinSeq(ev.merged)) \cup Updates(fin)]
+        /\ UNCHANGED msgs
+        /\ ObsOK(ev.obs)
+
 TraceInit == CrdtInit /\ l = 1 /\ MarkInit
-TraceNext == TrReset \/ TrAdd \/ TrDel \/ TrSnap \/ TrDeliver
+TraceNext == TrReset \/ TrAdd \/ TrDel \/ TrSnap \/ TrDeliver \/ TrConc
 MarkC     == Mark(l)
 (* the convergence statement itself, evaluated on every state of every validated trace *)
 TraceInv  == StateIsJoinOfSeen /\ Converged
